@@ -44,11 +44,12 @@ def run(rep, tier, seed, replay):
                           ("c11resp", 1500 if quick else 100000, "request outcome for arbitrary backend replies (real handleResp / handleRedirection / handleClusterDown)"),
                           ("c11nodes", 2500 if quick else 100000, "parseClusterNodes on mutated CLUSTER NODES texts under recover()"),
                           ("c14", 2000 if quick else 60000, "client requests (every command name, EVAL key counts, malformed arrays) through the real handleRequest under recover()"),
+                          ("c13", 400 if quick else 20000, "write/read sequences through the compression filter and its decompression hooks (values that are, or are cut-off, compression headers) under recover()"),
                           ("c18step", 1500 if quick else 60000, "SCAN requests with mistyped options (a name without its value, non-numbers) and arbitrary node replies through the real handlers under recover()")):
         res = differential(rep, PROP, mode, seed + 11, n, tier)
         cases, impl, model = res["cases"], res["impl"], res["models"][mode]
         mm = [i for i in vlib.diff_lines(impl, model) if not (model[i] == "AMBIG" and "PANIC" not in impl[i])]
-        if mode in ("c14", "c18step"):
+        if mode in ("c14", "c18step", "c13"):
             mm = []   # routing is C14's business (replica choice is not determined); here only: no panic, a reply for every request
         add_corr(rep, what + ": implementation vs model", res, mm, len(set(cases)))
         rep.cov["samples"] += [{"mode": mode, "case": cases[i][:160], "impl": impl[i][:160]} for i in (0, len(cases) - 1) if i < len(cases)]
